@@ -505,7 +505,7 @@ def _worker(args):
     return [(h,) + run_history(_MODEL_CACHE[root], h) for h in hists]
 
 
-@rule("RV", ["C08", "C09", "C11"], "references over histories of {bind to existing / value / foreign object / null, write through reference and original, copy the holder}: shared when and only when documented, always inside the holder's buffer, null reads None")
+@rule("RV", ["C08", "C09", "C11", "C10", "C01"], "references over histories of {bind to existing / value / foreign object / null, write through reference and original, copy the holder}: shared when and only when documented, always inside the holder's buffer, null reads None")
 def rv(cx):
     m = cx.m
     for _mod in ('struct', 'array', 'ref', 'scalar', 'typeutils'):
@@ -514,7 +514,11 @@ def rv(cx):
         m.func(q)
     maxlen = 3 if cx.tier == "thorough" else 2
     hs = [h for n in range(1, maxlen + 1) for h in itertools.product(list(OPS), repeat=n)]
-    focus = {"C11": ("holder-update-refused-late", "unionarray-update-refused-late", "bind-foreign", "union-bind-foreign"), "C09": ("copy-holder-same-buffer", "copy-holder-other-buffer", "copy-refarray-same-buffer", "copy-refarray-other-buffer", "copy-2d-refarray-same-buffer", "copy-2d-refarray-other-buffer", "update-from-holder", "copy-unionref-same-buffer", "copy-unionref-other-buffer")}.get(cx.prop)
+    focus = {"C11": ("holder-update-refused-late", "unionarray-update-refused-late", "bind-foreign", "union-bind-foreign"), "C09": ("copy-holder-same-buffer", "copy-holder-other-buffer", "copy-refarray-same-buffer", "copy-refarray-other-buffer", "copy-2d-refarray-same-buffer", "copy-2d-refarray-other-buffer", "update-from-holder", "copy-unionref-same-buffer", "copy-unionref-other-buffer"),
+             # C10: an assignment to a reference slot stores exactly the assigned value and leaves every other slot alone
+             # C01: a reference part built from another xobject (same / other buffer) reads back that object's value
+             "C01": ("bind-foreign", "union-bind-foreign", "copy-holder-other-buffer", "copy-refarray-other-buffer", "copy-unionref-other-buffer", "bind-value"),
+             "C10": ("bind-value", "bind-foreign", "union-bind-value", "union-bind-foreign", "item-bind-value", "item-bind-existing", "union-item-bind", "write-through-ref", "write-through-original")}.get(cx.prop)
     if focus and cx.tier != "thorough":
         hs = [h for h in hs if h[-1] in focus]
         cx.partial = True
